@@ -55,8 +55,8 @@ func (pipeline *Pipeline) directDepsMap() (map[*CallStm]map[*CallStm]struct{}, e
 			return errs.If()
 		case *MapExp:
 			var errs ErrorList
-			for _, subExp := range exp.Value {
-				if err := findDeps(src, subExp); err != nil {
+			for _, key := range exp.sortedKeys() {
+				if err := findDeps(src, exp.Value[key]); err != nil {
 					errs = append(errs, err)
 				}
 			}
